@@ -280,6 +280,17 @@ def r19_4(run):
             v = [a.value for a in node_asts(n) if isinstance(a, ast.Assign)][0]
             ok = isinstance(v, ast.List) and [dotted(e) for e in v.elts] == ['data_directory']
             run.ob('R19.4', la, n.ast, 'exactly the data directory is registered', ok, slot='to_delete-value', message='to_delete = %s' % src(v))
+    # what is registered for deletion is the local data_directory: apart from the caller's argument (flag True), its only
+    # definition may be a directory launch has just created itself
+    kd = 0
+    for n in g.real_nodes():
+        if n.kind == 'stmt' and isinstance(n.ast, (ast.Assign, ast.AugAssign)) and 'data_directory' in assigned_targets(n.ast):
+            kd += 1
+            v = n.ast.value
+            run.ob('R19.4', la, n.ast, 'launch defines the data directory only as a fresh temporary directory', isinstance(v, ast.Call) and dotted(v.func) in ('tempfile.mkdtemp', 'mkdtemp'),
+                   slot='datadir-def', message='launch sets data_directory = %s on the leg that registers it for deletion: a directory launch did not create '
+                                               '(e.g. one configured on the caller\'s TorConfig) is removed at exit' % src(v)[:50])
+    run.floor('R19.4', 'definitions of data_directory in launch', kd, 1)
     mk = [n for n in g.real_nodes() if any(is_call_to(a, 'tempfile.mkdtemp') for a in node_asts(n))]
     for n in mk:
         gd = g.guarded_by(n, lambda t: isinstance(t, ast.Compare) and dotted(t.left) == 'data_directory' and is_none(t.comparators[0]))
@@ -311,6 +322,7 @@ RULES = [
 from ..selftest import M  # noqa: E402
 F = 'txtorcon/controller.py'
 MUTANTS = [
+    M('config-datadir-treated-temporary', F, "        data_directory = tempfile.mkdtemp(prefix='tortmp')\n        config.DataDirectory = data_directory\n", "        try:\n            data_directory = config.DataDirectory\n        except KeyError:\n            data_directory = tempfile.mkdtemp(prefix='tortmp')\n            config.DataDirectory = data_directory\n", ['R19.4']),
     M('takeownership-not-awaited', F, "        yield self.tor_protocol.queue_command('TAKEOWNERSHIP')", "        self.tor_protocol.queue_command('TAKEOWNERSHIP')", ['R19.5', 'R19.2']),
     M('no-latch', F, "            d.callback(arg)\n        self._connected_listeners = None", "            d.callback(arg)\n        self._connected_listeners = []", ['R19.1']),
     M('timeout-fires-directly', F, "        fail = Failure(RuntimeError(\"timeout while launching Tor\"))\n        self._maybe_notify_connected(fail)", "        fail = Failure(RuntimeError(\"timeout while launching Tor\"))\n        for d in self._connected_listeners or []:\n            d.callback(fail)", ['R19.1', 'R19.3']),
